@@ -19,21 +19,26 @@ def extract(g, X):
 
     def save_size():
         b = X.fn_body(file_rs, "save")
-        m = re.search(r"trailer\.size\s*=\s*\(self\.refs\.len\(\)\s*\+\s*(\d+)\)", b)
+        m = re.search(r"\w+\.size\s*=\s*\(\s*self\.refs\.len\(\)\s*\+\s*(\d+)\s*\)", b)
         return m.group(1)
     g.attempt([("sto_size_plus", "N")], "file.rs:save trailer.size", save_size)
 
     def revision_literals():
         b = X.fn_body(file_rs, "write_revision")
-        loop = re.search(r"for\s*&\(&\w+.*?\{(.*?)\n        \}", b, flags=re.S).group(1)
+        fm = re.search(r"\bfor\s*&\(&\w+[^{]*\{", b)
+        loop = X.item_body(b[fm.start():], r"\{", "loop over the changes")
+        after = b[fm.start() + b[fm.start():].index(loop) + len(loop):]
         hdr = re.search(r'writeln!\(self\.backend,\s*"([^"]*)",\s*\w+,\s*\w+\)', loop).group(1)
         end = re.search(r'\w+\.serialize\(&mut self\.backend\)\?;\s*writeln!\(self\.backend,\s*"([^"]*)"\)', loop).group(1)
         rel = 1 if re.search(r"let\s+\w+\s*=\s*self\.backend\.len\(\)\s*-\s*self\.start_offset\s*;", loop) else 0
-        xrel = 1 if re.search(r"\}\s*let\s+\w+\s*=\s*self\.backend\.len\(\)\s*-\s*self\.start_offset\s*;", b) else 0
-        xhdr = re.search(r'writeln!\(self\.backend,\s*"([^"]*)",\s*\w+\.get_inner\(\)\.id,\s*0\)', b).group(1)
+        xrel = 1 if re.search(r"^\s*\}\s*let\s+\w+\s*=\s*self\.backend\.len\(\)\s*-\s*self\.start_offset\s*;", after) else 0
+        # the id of the cross-reference stream object: `<promise>.get_inner().id`, spelled out or held in a local
+        loc = re.search(r"let\s+(\w+)\s*=\s*\w+\.get_inner\(\)\.id\s*;", b)
+        xid = r"(?:\w+\.get_inner\(\)\.id" + ("|" + loc.group(1) if loc else "") + ")"
+        xhdr = re.search(r'writeln!\(self\.backend,\s*"([^"]*)",\s*' + xid + r',\s*0\)', b).group(1)
         xend = re.findall(r'\w+\.serialize\(&mut self\.backend\)\?;\s*writeln!\(self\.backend,\s*"([^"]*)"\)', b)[-1]
         tail = re.search(r'write!\(self\.backend,\s*"([^"]*)",\s*\w+\)', b).group(1)
-        wsz = re.search(r"write_stream\(\w+\.get_inner\(\)\.id\s+as\s+usize\s*\+\s*(\d+)\)", b).group(1)
+        wsz = re.search(r"write_stream\(\s*" + xid + r"\s+as\s+usize\s*\+\s*(\d+)\s*\)", b).group(1)
         pre, post = tail.split("{}")
         # "{} {} obj" + newline of writeln!
         return (cbytes(rust_str(hdr.replace("{}", "")) + b"\n"), cbytes(rust_str(end) + b"\n"), str(rel), str(xrel),
@@ -63,17 +68,24 @@ def extract(g, X):
     def update_arms():
         b = X.fn_body(file_rs, "update")
         arms = {}
-        for name in ("Free", "Raw", "Stream", "Promised", "Invalid"):
-            m = re.search(r"XRef::" + name + r"\s*(?:\{[^}]*\})?\s*=>\s*([^\n]*)", b)
-            t = m.group(1)
-            if "panic!" in t:
-                arms[name] = 0
-            elif re.search(r"PlainRef\s*\{\s*id:\s*\w+\.id,\s*gen:\s*gen_nr\s*\}", t):
-                arms[name] = 1
-            elif re.search(r"PlainRef\s*\{\s*id:\s*\w+\.id,\s*gen:\s*0\s*\}", t):
-                arms[name] = 2
-            else:
-                arms[name] = 9
+        # what the reference of the updated object is built from, per kind of table entry (arms may be merged with `|`,
+        # reordered, written as blocks): 0 panic, 1 the entry's generation, 2 generation 0, 9 anything else
+        for arm in X.match_arms(b, r"self\.refs\.get\(\s*\w+\.id\s*\)\?"):
+            for p in arm.pats:
+                name = X.variant_name(p)
+                if name is None or arm.guard is not None:
+                    raise ValueError("arm pattern %r" % p)
+                t = arm.expr
+                gb = re.search(r"\bgen_nr\s*(?::\s*(\w+))?", p)
+                gen = (gb.group(1) or "gen_nr") if gb else None
+                if re.match(r"panic!", t):
+                    arms[name] = 0
+                elif gen and re.fullmatch(r"PlainRef\s*\{\s*id:\s*\w+\.id,\s*gen:\s*" + gen + r"\s*,?\s*\}", t):
+                    arms[name] = 1
+                elif re.fullmatch(r"PlainRef\s*\{\s*id:\s*\w+\.id,\s*gen:\s*0\s*,?\s*\}", t):
+                    arms[name] = 2
+                else:
+                    arms[name] = 9
         clears = len(re.findall(r"self\.cache\.clear\(\)", b))
         merge = 1 if "append(" in b else 0
         cb = X.fn_body(file_rs, "create")
@@ -84,22 +96,34 @@ def extract(g, X):
 
     def table_new():
         b = X.fn_body(xref_rs, "new")
-        m = re.search(r"XRef::Free\s*\{\s*next_obj_nr:\s*(\w+),\s*gen_nr:\s*(\w+)\s*\}", b)
-        return str(X.lit(m.group(1))), str(X.lit(m.group(2)))
+        m = re.search(r"XRef::Free\s*\{\s*next_obj_nr:\s*(" + X.BYTE + r")\s*,\s*gen_nr:\s*(" + X.BYTE + r")\s*,?\s*\}", b)
+        return str(X.int_value(m.group(1))), str(X.int_value(m.group(2)))
     g.attempt([("sto_new_free_next", "N"), ("sto_new_free_gen", "N")], "xref.rs:XRefTable::new", table_new)
 
     def write_stream():
         b = X.fn_body(xref_rs, "write_stream")
+        (size,) = X.fn_params(xref_rs, "write_stream")
         codes = []
         for name in ("Free", "Raw", "Stream"):
             m = re.search(r"XRef::" + name + r"\s*\{[^}]*\}\s*=>\s*\((\d+),", b)
             codes.append(int(m.group(1)))
-        w = re.search(r"w:\s*vec!\[(\d+),\s*a_w,\s*b_w\]", b).group(1)
-        ix = re.search(r"index:\s*vec!\[(\d+),\s*size\s+as\s+u32\]", b).group(1)
-        sl = re.findall(r"to_be_bytes\(\)\[(\d+)\s*-\s*(\w+)\s*\.\.\]", b)
-        if [x[1] for x in sl] != ["a_w", "b_w"]:
+        # the two field widths, whatever the locals are called: `let A = byte_len(..); let B = byte_len(..);`
+        (aw, ma), (bw, mb) = re.findall(r"let\s+(\w+)\s*=\s*byte_len\(\s*(\w+)\s*\)\s*;", b)
+        if not re.search(r"let\s*\(\s*" + ma + r"\s*,\s*" + mb + r"\s*\)\s*=\s*self\.max_field_widths\(\)", b):
+            raise ValueError("the widths are not (second field, third field) of max_field_widths()")
+        w = re.search(r"\bw\s*:\s*vec!\[\s*(\d+)\s*,\s*" + aw + r"\s*,\s*" + bw + r"\s*\]", b).group(1)
+        im = re.search(r"\bindex\s*:\s*vec!\[\s*(\d+)\s*,\s*([^\],]+?)\s*\]", b)
+        if not X.is_alias(im.group(2), size, b):
+            raise ValueError("/Index does not end with the size")
+        sl = []
+        for m in re.finditer(r"(\w+)(\.to_be_bytes\(\))?\s*\[\s*(\d+)\s*-\s*(\w+)\s*\.\.\s*\]", b):
+            src_ = m.group(1) + m.group(2) if m.group(2) else (X.let_expr(b, m.group(1)) or "")
+            if not src_.endswith(".to_be_bytes()"):
+                raise ValueError("a field is not sliced out of to_be_bytes()")
+            sl.append((m.group(3), m.group(4)))
+        if [x[1] for x in sl] != [aw, bw]:
             raise ValueError("field slices")
-        return cbytes(codes), w, ix, cbytes([int(x[0]) for x in sl])
+        return cbytes(codes), w, im.group(1), cbytes([int(x[0]) for x in sl])
     g.attempt([("sto_xref_type_codes", "list N"), ("sto_xref_w0", "N"), ("sto_xref_index0", "N"), ("sto_xref_be_base", "list N")],
               "xref.rs:write_stream", write_stream)
 
@@ -111,9 +135,20 @@ def extract(g, X):
 
     def resolve_first():
         b = X.fn_body(file_rs, "resolve_ref")
-        m = re.search(r"match\s+self\.changes\.get\(&r\.id\)\s*\{\s*Some\(\(p,\s*_\)\)\s*=>\s*Ok\(\(\*p\)\.clone\(\)\)", b)
+        # pending changes are consulted before the table: `match self.changes.get(..) { Some((p, _)) => Ok(p.clone()), None => … }`
+        # or the same as an early `if let … { return … }`
+        first = False
+        try:
+            arm = X.match_arms(b, r"self\.changes\.get\(\s*&\w+\.id\s*\)")[0]
+            pm = re.fullmatch(r"Some\(\s*\(\s*(\w+)\s*,\s*_\s*\)\s*\)", arm.pattern)
+            first = bool(pm and re.fullmatch(r"(?:return\s+)?Ok\(\s*\(\s*\*" + pm.group(1) + r"\s*\)\.clone\(\)\s*\)\s*;?", arm.expr)
+                         and b.index("self.changes.get(") < b.index("self.refs.get("))
+        except (KeyError, ValueError):
+            first = False
         # the object is read at header position + table offset (plain or checked addition)
-        off = re.search(r"self\.start_offset\s*\+\s*pos\s*\.\.", b) or \
-            (re.search(r"let\s+pos\s*=\s*t!\(self\.start_offset\.checked_add\(pos\)", b) and re.search(r"self\.backend\.read\(pos\s*\.\.\)", b))
-        return "1" if m and off else "0"
+        off = re.search(r"self\.start_offset\s*\+\s*\w+\s*\.\.", b)
+        if not off:
+            ca = re.search(r"let\s+(\w+)\s*=\s*t!\(\s*self\.start_offset\.checked_add\(\s*\w+\s*\)", b)
+            off = ca and re.search(r"self\.backend\.read\(\s*" + ca.group(1) + r"\s*\.\.\s*\)", b)
+        return "1" if first and off else "0"
     g.attempt([("sto_resolve_changes_first", "N")], "file.rs:resolve_ref", resolve_first)
